@@ -633,6 +633,12 @@ func (m *Monitor) onDecide(h *host, d *gpbft.Justification) {
 	pr := h.p.Progress()
 	m.DecideRounds[pr.Round]++
 	m.log(rec{Kind: "DECIDE", P: h.i, Inst: inst, Val: vstr(val)})
+	if val.Len() > 100 {
+		m.Checks["decisions-longer-than-100-tipsets"]++
+	}
+	if val.Len() == gpbft.ChainMaxLen {
+		m.Checks["decisions-of-maximum-length"]++
+	}
 
 	// ---- C01 agreement
 	m.Checks["c01-decision-compared"]++
